@@ -78,6 +78,8 @@ type FaultResponse struct {
 	Body   []byte
 	// CutAfter > 0: the body breaks off after that many bytes with an unexpected EOF (the connection died mid-answer)
 	CutAfter int
+	// Location: value of the Location header (redirect statuses)
+	Location string
 }
 
 func NewNet(w *world.World) (*Net, error) {
@@ -287,6 +289,9 @@ func (n *Net) RoundTrip(req *http.Request) (*http.Response, error) {
 			n.ResponseBodies = append(n.ResponseBodies, fr.Body)
 			n.mu.Unlock()
 			resp := jsonResponse(st, fr.Body)
+			if fr.Location != "" {
+				resp.Header.Set("Location", fr.Location)
+			}
 			if fr.CutAfter > 0 && fr.CutAfter < len(fr.Body) {
 				resp.Body.(*trackedBody).cutAfter = fr.CutAfter
 			}
